@@ -26,7 +26,7 @@ def prepare():
     if REPO != '/repo':
         # scratch copy of the repository (mutation self-test): point the path dependencies at it
         txt = open(os.path.join(KX, 'Cargo.toml')).read()
-        alt = os.path.join(VERIF, '.cache', 'kx-alt')
+        alt = os.path.join(VERIF, '.cache', 'kx-alt-' + re.sub(r'\W', '_', REPO))
         if os.path.exists(alt):
             shutil.rmtree(alt)
         shutil.copytree(KX, alt, ignore=shutil.ignore_patterns('target'))
